@@ -64,6 +64,11 @@ pub mod time {
 
     pub fn sleep(d: Duration) -> Sleep { Sleep { deadline: vrt::now().saturating_add(to_units(d)) } }
 
+    impl Sleep {
+        /// tokio API: true once the deadline has passed
+        pub fn is_elapsed(&self) -> bool { vrt::now() >= self.deadline }
+    }
+
     impl Future for Sleep {
         type Output = ();
         fn poll(self: Pin<&mut Self>, _cx: &mut Context<'_>) -> Poll<()> {
